@@ -136,13 +136,15 @@ theorem copyRange_agree {r : Bytes} {len st en : Nat} (hlen : len < u64Mod)
             simp only [parseU64_digits hcond'.1 hf hfl, hcond2.1, if_false, parseU64_digits hcond2.1 hl hll]
           · simp [hb] at h
 
-/-- `upload_part_copy` comparable: part number within 1..10000 [else fs:part-number-not-validated], the upload does not exist
+/-- `upload_part_copy` comparable: any part number (outside 1..10000: `InvalidArgument` on both sides since 531fc88; before:
+    fs:part-number-not-validated); otherwise the upload does not exist
     (`NoSuchUpload` on both sides) or was created for this bucket and key [else fs:upload-not-bound-to-key], source names agree (a missing source bucket is
     inside since cc244fc: `NoSuchBucket` on both sides), the source is not a directory and its size fits `i64`; a
     `x-amz-copy-source-range`, if given, is one the store accepts: `bytes=first-last` inside the source
     [else fs:part-copy-range-unchecked] -/
 def UploadPartCopyOk (s : State) (b k : Bytes) (u : UploadRef) (n : Int) (sb sk : Bytes) (range : Option Bytes) : Prop :=
-  1 ≤ n ∧ n ≤ 10000 ∧ UploadOk s u b k ∧ NameOk sb ∧ CanonKey sk ∧
+  (n < 1 ∨ n > 10000) ∨
+  UploadOk s u b k ∧ NameOk sb ∧ CanonKey sk ∧
   (bucketOk sb = true →
     match keyPath sk with
     | none => True
@@ -184,8 +186,9 @@ theorem uploadPartCopy_refines (H : Hashes) (dl : Nat) {s : State} (hi : Inv s) 
     abs (step H dl s (.uploadPartCopy who b k u n sb sk range)).1 =
       (StoreSpec.step H (abs s) (.uploadPartCopy who b k u n sb sk range)).1 ∧
     Inv (step H dl s (.uploadPartCopy who b k u n sb sk range)).1 := by
-  obtain ⟨h1, h2, hbound, hsname, ⟨_, hscanon⟩, hsrc⟩ := hg
-  have hnr : ¬ (n < 1 ∨ n > 10000) := by omega
+  by_cases hnr : n < 1 ∨ n > 10000
+  · simp [step, StoreSpec.step, hnr, hi]
+  obtain ⟨hbound, hsname, ⟨_, hscanon⟩, hsrc⟩ := hg.resolve_left hnr
   rcases hbound.cases with hbound | habs
   case inr =>
     have hup := habs.upload b k
@@ -242,7 +245,7 @@ theorem uploadPartCopy_refines (H : Hashes) (dl : Nat) {s : State} (hi : Inv s) 
                 have hstep : step H dl s (.uploadPartCopy who b k (some id) n sb sk none) =
                     ({ s with parts := alInsert (id, n) c s.parts }, .part (some (etagOf H c))) := by
                   have h0 : ¬ (0 > i64Max) := by decide
-                  simp [step, State.verify, hl, hown, objPath, hsbd, hskp, hsnode, hsn, copyRange, h0, hbody]
+                  simp [step, hnr, State.verify, hl, hown, objPath, hsbd, hskp, hsnode, hsn, copyRange, h0, hbody]
                 have hspec : StoreSpec.step H (abs s) (.uploadPartCopy who b k (some id) n sb sk none) =
                     ({ abs s with uploads := alInsert id (withPart (upOf s id ui) n c) (abs s).uploads },
                       .part (some (etagOf H c))) := by
@@ -267,7 +270,7 @@ theorem uploadPartCopy_refines (H : Hashes) (dl : Nat) {s : State} (hi : Inv s) 
                   have hstep : step H dl s (.uploadPartCopy who b k (some id) n sb sk (some r)) =
                       ({ s with parts := alInsert (id, n) (slice c st (l + 1)) s.parts },
                         .part (some (etagOf H (slice c st (l + 1))))) := by
-                    simp [step, State.verify, hl, hown, objPath, hsbd, hskp, hsnode, hsn, hmodel, hcl, hst, slice]
+                    simp [step, hnr, State.verify, hl, hown, objPath, hsbd, hskp, hsnode, hsn, hmodel, hcl, hst, slice]
                   have hspec : StoreSpec.step H (abs s) (.uploadPartCopy who b k (some id) n sb sk (some r)) =
                       ({ abs s with uploads := alInsert id (withPart (upOf s id ui) n (slice c st (l + 1))) (abs s).uploads },
                         .part (some (etagOf H (slice c st (l + 1))))) := by
